@@ -161,7 +161,8 @@ def _rowify(a, n):
         a = np.asarray(float(int(dg(a), 16) % 100003) / 100003.0)
     a = a.astype(np.float64, copy=False)
     if a.ndim >= 1 and a.shape[0] == n:
-        return a.reshape(n, -1)
+        # values only: the memory layout of an argument must not matter to the kernel
+        return np.ascontiguousarray(a.reshape(n, -1))
     return np.broadcast_to(a.reshape(1, -1), (n, max(a.size, 1))) if a.size else np.zeros((n, 1))
 
 
@@ -232,6 +233,14 @@ def kernel(cfg, pos, named, n, draws, observed, meta_bi):
         res = np.floor(res * 1e6).astype(np.int64)
     elif dt == 'f4':
         res = res.astype(np.float32)
+    lay = cfg.get('layout')
+    if lay and res.ndim >= 2:
+        # same values in another memory layout (simulators that fill one time step per row
+        # and return the transpose do this; several bundled examples return such arrays)
+        if lay == 'F':
+            res = np.asfortranarray(res)
+        else:
+            res = np.moveaxis(np.ascontiguousarray(np.moveaxis(res, 0, -1)), -1, 0)
     return res
 
 
@@ -348,8 +357,14 @@ def ref_sub_seed(seed, index, high=2 ** 31):
 PRIOR_FAMILIES = ['uniform', 'norm', 'expon', 'beta']
 
 
-def gen_prior(tape, name, earlier, positive=()):
+def gen_prior(tape, name, earlier, positive=(), latent=()):
     fam = tape.choice('prior_family', PRIOR_FAMILIES)
+    # a latent (non-parameter) node is only ever the location of a normal prior: ModelPrior
+    # evaluates the density given ONE latent draw of its own, and a child whose support moved
+    # with the latent could have density 0 on the whole population (SMC then never finds a
+    # proposal inside the prior's support and does not terminate - a property of such a model,
+    # not of the code under test)
+    earlier = list(earlier) + (list(latent) if fam == 'norm' else [])
     hier = bool(earlier) and fam in ('uniform', 'norm', 'expon') and tape.chance('hier', 1, 3)
     if fam == 'uniform':
         a = tape.int('u_lo', -2, 2) * 0.5
@@ -372,14 +387,24 @@ def gen_prior(tape, name, earlier, positive=()):
 
 
 def gen_inference_spec(tape, disc_kinds=('disc', 'dist'), max_priors=3, extra_shapes=False,
-                       ties=True, smooth=None, all_rec=False):
-    """Priors -> recording simulator -> summaries -> discrepancy (+ optional extra outputs)."""
+                       ties=True, smooth=None, all_rec=False, latent=False):
+    """Priors -> recording simulator -> summaries -> discrepancy (+ optional extra outputs).
+
+    latent=True: sometimes a stochastic non-parameter node (elfi.RandomVariable) sits above a
+    prior (a latent hyper-parameter); it is never overridden when the joint prior density is
+    evaluated, so it runs inside ModelPrior's own nets."""
     nodes = []
     n_pri = tape.int('n_priors', 1, max_priors)
     pnames = []
     positive = []
+    lat = []
+    if latent and tape.chance('latent', 1, 3):
+        nodes.append({'name': 'z0', 'kind': 'prior', 'latent': True, 'dist': 'norm',
+                      'args': [tape.int('z_m', -2, 2) * 0.25, tape.int('z_s', 1, 3) * 0.25],
+                      'rec': all_rec or tape.chance('recdist', 1, 2)})
+        lat = ['z0']
     for i in range(n_pri):
-        p = gen_prior(tape, 't%d' % i, pnames, positive)
+        p = gen_prior(tape, 't%d' % i, pnames, positive, latent=lat)
         if all_rec:
             p['rec'] = True
         nodes.append(p)
@@ -390,6 +415,12 @@ def gen_inference_spec(tape, disc_kinds=('disc', 'dist'), max_priors=3, extra_sh
                 or p['dist'] == 'beta'):
             # strictly positive support with a margin (uniform/expon start above 0; beta in (0,1))
             positive.append(p['name'])
+    if lat and not any('z0' in p['args'] for p in nodes[1:]):
+        # make the latent node count: the first normal prior with a numeric location sits on it
+        for p in nodes[1:]:
+            if p['dist'] == 'norm' and not isinstance(p['args'][0], str):
+                p['args'][0] = 'z0'
+                break
     if smooth is None:
         smooth = tape.chance('smooth', 1, 2)
     mode = 'smooth' if smooth else 'mix'
@@ -456,6 +487,9 @@ def gen_inference_spec(tape, disc_kinds=('disc', 'dist'), max_priors=3, extra_sh
                                   'salt': 0.7 + j,
                                   'dtype': tape.choice('extra_dtype', [None, None, 'int', 'f4'])}})
             extras.append('x%d' % j)
+    for nd in nodes:
+        if nd.get('cfg', {}).get('shape') and tape.chance('layout', 1, 3):
+            nd['cfg']['layout'] = tape.choice('layout_kind', ['F', 'T'])
     return {'nodes': nodes, 'params': pnames, 'sums': snames, 'disc': 'd', 'extras': extras,
             'mode': mode}
 
@@ -468,6 +502,8 @@ def describe_spec(spec):
             d['dist'] = n['dist']
             d['args'] = n['args']
             d['rec'] = n.get('rec')
+            if n.get('latent'):
+                d['latent'] = True
         else:
             d['parents'] = [p if isinstance(p, str) else float(p) for p in n.get('parents', [])]
             if 'cfg' in n:
@@ -495,7 +531,8 @@ def build_model(elfi, spec, order=None, tag=None):
         if kind == 'prior':
             args = [refs[a] if isinstance(a, str) else a for a in n['args']]
             dist = RecDist('%s/%s' % (tag, name), n['dist'], name) if n.get('rec') else n['dist']
-            refs[name] = elfi.Prior(dist, *args, model=m, name=name)
+            ctor = elfi.RandomVariable if n.get('latent') else elfi.Prior
+            refs[name] = ctor(dist, *args, model=m, name=name)
             continue
         if kind == 'const':
             refs[name] = elfi.Constant(n['value'], model=m, name=name)
